@@ -26,6 +26,9 @@ def seeded_table():
     for f in sorted(glob.glob(os.path.join(ROOT, 'seeded', '*', 'meta.json'))):
         m = json.load(open(f))
         n = os.path.basename(os.path.dirname(f))
+        if n.startswith('harmless'):
+            rows.append('| %s | – | %s | – | expected and observed: no alarm (%s) |' % (n, m.get('what_it_changes', '')[:150], ', '.join('%s exit %s' % (k, r.get('exit')) for k, r in m.get('verif', {}).items())))
+            continue
         v = m.get('verif', {})
         caught = []
         for p, r in v.items():
